@@ -162,7 +162,7 @@ for _k, _found in {"C01": {**L0_FIELD_CORE, **L0_SCALAR}, "C02": {**L0_FIELD_COR
 # chaining through both backends against the contracts the L0 obligations prove: FL.Bounds).
 _FL_CURVE = reg("Voi.Props.FL.Curve", "Voi.Props.FL.Models")
 _FL_FIELD = reg("Voi.Props.FL.Field")
-_FL_BOUNDS = reg("Voi.Props.FL.Bounds")
+_FL_BOUNDS = reg("Voi.Props.FL.Bounds", "Voi.FIR.Sound")
 for _k, _t in {"C03": {**_FL_CURVE, **_FL_BOUNDS}, "C04": {**_FL_FIELD, **_FL_BOUNDS}, "C06": _FL_BOUNDS, "C07": {**_FL_FIELD, **_FL_BOUNDS},
                "C10": _FL_CURVE, "C11": _FL_CURVE}.items():
     PROPS[_k]["theorems"] = {**PROPS[_k]["theorems"], **_t}
